@@ -23,7 +23,7 @@ pub struct Cfg {
 
 pub fn term_name(i: usize) -> String {
     // terminal spellings that the built-in lexer can tell apart when space-separated
-    let names = ["a", "b", "c", "d", "e", "f", "g", "h"];
+    let names = ["a", "b", "c", "d", "e", "f", "g", "h", "i", "j", "k", "l"];
     names[i % names.len()].to_string()
 }
 
@@ -182,6 +182,38 @@ fn templates() -> Vec<(&'static str, Vec<Vec<Vec<S>>>, usize)> {
                 vec![vec![t(4)]],
             ],
             5,
+        ),
+        (
+            // LR(1)-not-LALR where the contexts are told apart across a NONTERMINAL edge:
+            // G = a X d | a Y c | b X c | b Y d ; X = P e ; Y = P e ; P = p
+            "lr1-not-lalr-nt-edge",
+            vec![
+                vec![vec![t(0), n(1), t(3)], vec![t(0), n(2), t(2)], vec![t(1), n(1), t(2)], vec![t(1), n(2), t(3)]],
+                vec![vec![n(3), t(4)]],
+                vec![vec![n(3), t(4)]],
+                vec![vec![t(5)]],
+            ],
+            6,
+        ),
+        (
+            // a state cloned during lane resolution that has reductions of its own and is also
+            // reachable by a shorter path: G = X z | Y w | a U d | a V c | b U c | b V d | a Q g | a R h | b Q g | b R h ;
+            // U = k X ; V = k Y ; X = e ; Y = e ; Q = k ; R = k
+            "lr1-not-lalr-cloned-state",
+            vec![
+                vec![
+                    vec![n(3), t(0)], vec![n(4), t(1)],
+                    vec![t(2), n(1), t(3)], vec![t(2), n(2), t(4)], vec![t(5), n(1), t(4)], vec![t(5), n(2), t(3)],
+                    vec![t(2), n(5), t(6)], vec![t(2), n(6), t(7)], vec![t(5), n(5), t(6)], vec![t(5), n(6), t(7)],
+                ],
+                vec![vec![t(8), n(3)]],
+                vec![vec![t(8), n(4)]],
+                vec![vec![t(9)]],
+                vec![vec![t(9)]],
+                vec![vec![t(8)]],
+                vec![vec![t(8)]],
+            ],
+            10,
         ),
         (
             "lalr-not-slr",
